@@ -27,6 +27,62 @@ class V4:
 PRE = {"mul": (2.5, 1.75), "square_and_negate_D": (1.5,), "negate_lazy": (0.999,), "diff_sum": (0.01,), "neg": (3.9999,)}
 POST = {"new": 0.0002, "reduce": 0.0002, "neg": 0.0002, "mul": 0.007, "square_and_negate_D": 0.007, "mul_small": 0.007, "negate_lazy": 1.0, "diff_sum": 1.6}
 
+I_SHUFFLE = ["AAAA", "BBBB", "BADC", "BACD", "ADDA", "CBCB", "ABDC", "ABAB", "DBBD", "CACA"]
+I_LANES = ["D", "C", "AB", "AC", "AD", "BCD"]
+def install_ifma(it):
+    """IFMA backend: F51x4Unreduced / F51x4Reduced as abstract 4-lane ring values (their coefficient arithmetic: checks/c01i.py); the backend
+    documents no coefficient bounds, so no headroom is tracked here"""
+    VU = r'<?curve25519_dalek::backend::vector::ifma::field::F51x4(Unreduced|Reduced)>?'       # the nightly (v0) demangling writes inherent methods as <Type>::method
+    T_ = r'(::__Impl_\w+__>::_impl_\w+)?$'
+    I = it.intercept; it.headroom_fail = []
+    def getv(p):
+        R = it.regions[p.r]; e = R.b.get(p.o)
+        if e is not None and isinstance(e[0], V4) and e[1] == 0: return e[0]
+        lanes = []
+        for k in range(4):
+            tot = 0
+            for i in range(5):
+                pv = it.P(it.load(Ptr(p.r, p.o + 32 * i + 8 * k), 8))
+                if not pv.is_const(): raise Unsupported("vector operand with symbolic raw coefficients at %r" % (p,))
+                tot += pv.cval() << (51 * i)
+            lanes.append(Poly.const(tot % P))
+        return V4(lanes)
+    def putv(p, v, b=None):
+        obj = v if isinstance(v, V4) else V4(v); R = it.regions[p.r]
+        for k in range(160): R.b[p.o + k] = (obj, k, 160)
+        return None
+    it.getv, it.putv = getv, putv
+    def cnum(x):
+        pp = it.P(x)
+        if not pp.is_const(): raise Unsupported("symbolic shuffle/blend control")
+        return pp.cval()
+    def lanewise(f, n):
+        def h(it_, a, nm):
+            ops = [getv(a[1 + k]) for k in range(n)]
+            return putv(a[0], [f(*[o.l[k] for o in ops]) for k in range(4)])
+        return h
+    def h_split(it_, a, n):
+        v = getv(a[1])
+        for k in range(4): it.put(Ptr(a[0].r, a[0].o + it.fesize * k), FE(v.l[k]))
+        return None
+    def h_mul_small(it_, a, n):
+        v = getv(a[1])
+        ks = [cnum(it.load(Ptr(a[2].r, a[2].o + 4 * k), 4)) for k in range(4)] if isinstance(a[2], Ptr) else [cnum(a[2 + k]) for k in range(4)]
+        return putv(a[0], [v.l[k].scale(ks[k]) for k in range(4)])
+    def h_diff_sum(it_, a, n):
+        A, B, Cc, Dd = getv(a[1]).l; return putv(a[0], [B - A, B + A, Dd - Cc, Dd + Cc])
+    I.insert(0, (VU + r'::new' + T_, lambda it_, a, n: putv(a[0], [it.get(a[k]).p for k in (1, 2, 3, 4)])))
+    I.insert(0, (VU + r'::split' + T_, h_split))
+    I.insert(0, (VU + r'::shuffle' + T_, lambda it_, a, n: putv(a[0], [getv(a[1]).l["ABCD".index(c)] for c in I_SHUFFLE[cnum(a[2])]])))
+    I.insert(0, (VU + r'::blend' + T_, lambda it_, a, n: putv(a[0], [(getv(a[2]) if "ABCD"[k] in I_LANES[cnum(a[3])] else getv(a[1])).l[k] for k in range(4)])))
+    I.insert(0, (VU + r'::negate_lazy' + T_, lanewise(lambda x: -x, 1))); I.insert(0, (VU + r'::diff_sum' + T_, h_diff_sum))
+    I.insert(0, (VU + r'::square' + T_, lanewise(lambda x: x * x, 1)))
+    I.insert(0, (r'<' + VU + r' as core::ops::arith::Neg>::neg' + T_, lanewise(lambda x: -x, 1)))
+    I.insert(0, (r'<' + VU + r' as core::ops::arith::Add>::add' + T_, lanewise(lambda x, y: x + y, 2)))
+    I.insert(0, (r'<' + VU + r' as core::convert::From<' + VU + r'>>::from' + T_, lanewise(lambda x: x, 1)))
+    I.insert(0, (r'<&' + VU + r' as core::ops::arith::Mul(<&' + VU + r'>)?>::mul' + T_, lanewise(lambda x, y: x * y, 2)))
+    I.insert(0, (r'<&' + VU + r' as core::ops::arith::Mul<\(u32, ?u32, ?u32, ?u32\)>>::mul' + T_, h_mul_small))
+
 def install(it):
     """vector-field interceptors on an FSym instance"""
     VF = r'curve25519_dalek::backend::vector::avx2::field::FieldElement2625x4'
@@ -115,21 +171,23 @@ def install(it):
     I.insert(0, (r'<&' + VF + r' as core::ops::arith::Mul>::mul' + T_, h_lanewise(lambda x, y: x * y, 2, "mul")))
     I.insert(0, (r'<' + VF + r' as core::ops::arith::Mul<\(u32, ?u32, ?u32, ?u32\)>>::mul' + T_, h_mul_small))
 
-def vf_paths(rep, name, modpath, fn, body):
+def vf_paths(rep, name, modpath, fn, body, backend="avx2"):
     def body2(it):
-        install(it); vcs = body(it)
+        (install if backend == "avx2" else install_ifma)(it); vcs = body(it)
         return list(vcs) + [("every vector kernel is called within its documented coefficient pre-condition (headroom along the formula)%s" % ((": " + "; ".join(it.headroom_fail[:3])) if it.headroom_fail else ""), not it.headroom_fail)]
-    return run_paths(rep, "simd/" + name, "simd", modpath, fn, body2)
+    cfg = "simd" if backend == "avx2" else "avx512"
+    return run_paths(rep, cfg + "/" + name.replace("avx2", backend), cfg, modpath, fn, body2)
 
-def harnesses(rep, modpath):
+def harnesses(rep, modpath, backend="avx2"):
     T = []
-    def H(name, fn, body): T.append(lambda: vf_paths(rep, name, modpath, fn, body))
+    pre = "vp_vec_" if backend == "avx2" else "vp_ivec_"
+    def H(name, fn, body): T.append(lambda: vf_paths(rep, name, modpath, fn.replace("vp_vec_", pre), body, backend))
     D = C(fconst.D)
     def binop(fn, sign):
         def body(it):
             p1, (x1, y1, z1) = affine_point(it, "p"); p2, (x2, y2, z2) = affine_point(it, "q")
             out = it.new_region("out", 4 * it.fesize)
-            it.call(fn, [out, p1, p2])
+            it.call(fn.replace("vp_vec_", pre), [out, p1, p2])
             X, Y, Z, Tt = get_fes(it, out, 4)
             n1, d1, n2, d2 = law(x1, y1, x2.scale(sign), y2)
             return [("X3*(1+d x1x2y1y2) == Z3*(x1y2+y1x2)", X * d1 - Z * n1), ("Y3*(1-d x1x2y1y2) == Z3*(y1y2+x1x2)", Y * d2 - Z * n2), ("X3*Y3 == Z3*T3", X * Y - Z * Tt)]
@@ -139,27 +197,28 @@ def harnesses(rep, modpath):
     def b_double(it):
         p1, (x1, y1, z1) = affine_point(it, "p"); out = it.new_region("out", 4 * it.fesize)
         it.rel.append(curve_eq(x1, y1))       # the doubling formula uses the curve equation (as the serial one does: C03)
-        it.call("vp_vec_double", [out, p1])
+        it.call(pre + "double", [out, p1])
         X, Y, Z, Tt = get_fes(it, out, 4)
         n1, d1, n2, d2 = law(x1, y1, x1, y1)
         return [("X3*(1+d x^2y^2) == Z3*(2xy)", X * d1 - Z * n1), ("Y3*(1-d x^2y^2) == Z3*(y^2+x^2)", Y * d2 - Z * n2), ("X3*Y3 == Z3*T3", X * Y - Z * Tt)]
     H("avx2: ExtendedPoint::double is the doubling", "vp_vec_double", b_double)
     def b_roundtrip(it):
         vs = [V("c%d" % i) for i in range(4)]; p = put_point(it, "p", vs); out = it.new_region("out", 4 * it.fesize)
-        it.call("vp_vec_roundtrip", [out, p])
+        it.call(pre + "roundtrip", [out, p])
         o = get_fes(it, out, 4)
         return [("coordinate %d preserved by EdwardsPoint -> ExtendedPoint -> EdwardsPoint" % i, a - b) for i, (a, b) in enumerate(zip(o, vs))]
     H("avx2: conversion round trip", "vp_vec_roundtrip", b_roundtrip)
     def b_ident(it):
         out = it.new_region("out", 4 * it.fesize)
-        it.call("vp_vec_identity", [out]); X, Y, Z, Tt = get_fes(it, out, 4)
+        it.call(pre + "identity", [out]); X, Y, Z, Tt = get_fes(it, out, 4)
         return [("X == 0", X), ("Y == Z", Y - Z), ("T == 0", Tt)]
     H("avx2: ExtendedPoint::identity is the neutral element", "vp_vec_identity", b_ident)
     def b_cached_ident(it):
         p1, (x1, y1, z1) = affine_point(it, "p"); out = it.new_region("out", 4 * it.fesize)
-        it.call("vp_vec_add_cached_identity", [out, p1]); X, Y, Z, Tt = get_fes(it, out, 4)
+        it.call(pre + "add_cached_identity", [out, p1]); X, Y, Z, Tt = get_fes(it, out, 4)
         return [("P + CachedPoint::identity() == P  (x)", X * z1 - Z * x1 * z1), ("(y)", Y * z1 - Z * y1 * z1), ("X*Y == Z*T", X * Y - Z * Tt)]
     H("avx2: CachedPoint::identity is neutral for addition", "vp_vec_add_cached_identity", b_cached_ident)
+    if backend != "avx2": return T
     # headroom along chains: every ExtendedPoint an operation returns has b < 0.007 (it is a product), every CachedPoint b < 0.007
     # (D lane b < 1.0 after one negation); starting from exactly these bounds each operation must again meet every kernel pre-condition and
     # return the same bounds (an inductive step over arbitrary chains of additions, doublings, table constructions)
